@@ -130,7 +130,7 @@ Definition same_but_partial (a b : attr) : Prop :=
 
 (* an export policy that only accepts or rejects (no set-actions) *)
 Definition filter_only (pol : policy_fn) : Prop :=
-  forall s a nh onh r, pol s a nh onh = Some r -> r = (a, nh).
+  forall s a nh onh ic r, pol s a nh onh ic = Some r -> r = (a, nh).
 
 (* ------------------------------------------------------------ the neighbour's view *)
 (* what a neighbour holds for (dest, pid) after receiving the sink operations
@@ -169,7 +169,7 @@ Definition decodable (attrs : list attr) : Prop :=
 
 (* an export policy whose set-actions keep attribute vectors decodable *)
 Definition policy_keeps_decodable (pol : policy_fn) : Prop :=
-  forall s a nh onh a' nh', decodable a -> pol s a nh onh = Some (a', nh') -> decodable a'.
+  forall s a nh onh ic a' nh', decodable a -> pol s a nh onh ic = Some (a', nh') -> decodable a'.
 
 (* AS numbers are u32 in PeerExportContext *)
 Definition wf_ctx (x : ectx) : Prop := x_lasn x < 4294967296 /\ x_confed x < 4294967296.
